@@ -2,7 +2,7 @@ import SMV.Lemmas.DeclEngine
 import SMV.Lemmas.DeclEquiv
 import SMV.Lemmas.DeclAllowed
 import SMV.Lemmas.DeclStyles
-import SMV.Lemmas.DeclAny3
+import SMV.Lemmas.DeclAny4
 /-!
 # C15 — every declaration style of the same machine yields the same machine
 
@@ -111,21 +111,26 @@ theorem C15_rewrite_anywhere {s s' : List Stmt} (r : SRule s s') (p q : List Stm
 /-! ## (f) `from_.any()` -/
 
 /-- **C15 (f), partial.** After any class body `p`, the statement `e = t.from_.any(kw)` and the
-statement `e = t.from_(s₁, …, sₖ, kw)`, `s₁ … sₖ` the non-final states declared in `p` in order,
-declare equivalent classes — provided that
-* every state is declared before the event (here: the statement follows `p`; `D16a`),
+statement `e = t.from_(s₁, …, sₖ, kw)`, `s₁ … sₖ` the non-final states of the class in declaration
+order, declare equivalent classes — provided that
+* every *non-final* state is declared before the event: the states `fs` declared after it are all
+  final (and new, and nothing in `p` leaves them) (`D16a`),
 * the event's expression holds no other transition (here: it is exactly the `any()` call; `D16b`),
 * `kw` carries no `event=` (`D16d`) and is not `internal` (`AnyState` is never the target),
 * `e` is not assigned in `p`,
 and the class has no base class that already used `from_.any()` (here: no base class; `D16c`).
-Missing for the full statement (f): statements after the `any()` statement. -/
-theorem C15_any_partial (p : List Stmt) (e t : Name) (kw : Kw)
+Missing for the full statement (f): transition-creating statements after the `any()` statement (the
+proof would need an index-shifting simulation of the rest of the body). -/
+theorem C15_any_partial (p : List Stmt) (fs : List SDecl) (e t : Name) (kw : Kw)
     (hev : kw.event = []) (hint : kw.internal = false)
-    (hfresh : e ∉ (elabBody {} p).attrs.map (·.1)) :
-    elabClass {} (p ++ [.assign e (.fromAny t kw)]) ≈
+    (hfresh : e ∉ (elabBody {} p).attrs.map (·.1))
+    (hfinal : ∀ f ∈ fs, f.final = true)
+    (hnew : ∀ f ∈ fs, f.name ∉ (declared (elabBody {} p).attrs).map (·.name) ∧
+      ∀ t' ∈ (elabBody {} p).trans, t'.source ≠ .st f.name) :
+    elabClass {} (p ++ [.assign e (.fromAny t kw)] ++ fs.map .state) ≈
       elabClass {} (p ++ [.assign e (.from_ t
-        (((declared (elabBody {} p).attrs).filter (!·.final)).map (·.name)) kw)]) :=
-  any_partial p e t kw hev hint hfresh
+        (((declared (elabBody {} p).attrs ++ fs).filter (!·.final)).map (·.name)) kw)] ++ fs.map .state) :=
+  any_partial_q p fs e t kw hev hint hfresh hfinal hnew
 
 /-! ## chains of rewrites -/
 
@@ -136,10 +141,14 @@ inductive Rewrites : List (List Stmt) → List (List Stmt) → Prop
   | trans {P Q R : List (List Stmt)} : Rewrites P Q → Rewrites Q R → Rewrites P R
   | style {s s' : List Stmt} (r : SRule s s') (p q : List Stmt) (pre post : List (List Stmt)) :
       Rewrites (pre ++ [p ++ s ++ q] ++ post) (pre ++ [p ++ s' ++ q] ++ post)
-  | any (p : List Stmt) (e t : Name) (kw : Kw) (hev : kw.event = []) (hint : kw.internal = false)
-      (hfresh : e ∉ (elabBody {} p).attrs.map (·.1)) :
-      Rewrites [p ++ [.assign e (.fromAny t kw)]]
-        [p ++ [.assign e (.from_ t (((declared (elabBody {} p).attrs).filter (!·.final)).map (·.name)) kw)]]
+  | any (p : List Stmt) (fs : List SDecl) (e t : Name) (kw : Kw) (hev : kw.event = [])
+      (hint : kw.internal = false) (hfresh : e ∉ (elabBody {} p).attrs.map (·.1))
+      (hfinal : ∀ f ∈ fs, f.final = true)
+      (hnew : ∀ f ∈ fs, f.name ∉ (declared (elabBody {} p).attrs).map (·.name) ∧
+        ∀ t' ∈ (elabBody {} p).trans, t'.source ≠ .st f.name) :
+      Rewrites [p ++ [.assign e (.fromAny t kw)] ++ fs.map .state]
+        [p ++ [.assign e (.from_ t
+          (((declared (elabBody {} p).attrs ++ fs).filter (!·.final)).map (·.name)) kw)] ++ fs.map .state]
 
 /-- **C15 (any two renderings).** Renderings connected by any chain of the proved rewrites declare
 equivalent classes … -/
@@ -149,7 +158,7 @@ theorem C15_any_two {P Q : List (List Stmt)} (h : Rewrites P Q) : elabProg P ≈
   | symm _ ih => exact ih.symm
   | trans _ _ ih1 ih2 => exact ih1.trans ih2
   | style r p q pre post => rw [C15_rewrite_anywhere r p q pre post]; exact Equiv.refl _
-  | any p e t kw hev hint hfresh => exact any_partial p e t kw hev hint hfresh
+  | any p fs e t kw hev hint hfresh hfinal hnew => exact any_partial_q p fs e t kw hev hint hfresh hfinal hnew
 
 /-- … hence behave identically on every history. -/
 theorem C15_any_two_behaviour {P Q : List (List Stmt)} (h : Rewrites P Q) (env : Env) (o : Opts)
@@ -175,9 +184,9 @@ def body : List Stmt := [.state sA, .state sB, .state sZ, .assign go (.to 0 [1] 
 
 /-- non-vacuity of `C15_any_partial` (and of `C15_behaviour`): the hypotheses hold, the two classes
 are different objects (different stores), and the explicit list is `[s0, s1]` -/
-example : elabClass {} (body ++ [.assign stop (.fromAny 2 guarded)]) ≈
-    elabClass {} (body ++ [.assign stop (.from_ 2 [0, 1] guarded)]) :=
-  C15_any_partial body stop 2 guarded rfl rfl (by decide)
+example : elabClass {} (body ++ [.assign stop (.fromAny 2 guarded)] ++ [.state { name := 4, final := true }]) ≈
+    elabClass {} (body ++ [.assign stop (.from_ 2 [0, 1] guarded)] ++ [.state { name := 4, final := true }]) :=
+  C15_any_partial body [{ name := 4, final := true }] stop 2 guarded rfl rfl (by decide) (by decide) (by decide)
 
 example : elabClass {} (body ++ [.assign stop (.fromAny 2 guarded)]) ≠
     elabClass {} (body ++ [.assign stop (.from_ 2 [0, 1] guarded)]) := by decide
